@@ -11,6 +11,7 @@ import (
 	"os"
 	"path/filepath"
 	"regexp"
+	"runtime"
 	"runtime/debug"
 	"sort"
 	"strconv"
@@ -528,3 +529,72 @@ var (
 	workerMu     sync.Mutex
 	workerPanics []workerPanic
 )
+
+var goHeader = regexp.MustCompile(`^goroutine (\d+) \[([^\],]+)`)
+
+// DeadlockMonitor decides deadlock by global quiescence, not by a deadline: it samples the stacks of all goroutines and
+// reports when, in three consecutive samples, (1) every goroutine that has a frame of the harness or of the library is in a
+// blocked state (channel send/receive, select, semaphore/mutex/cond wait) with the same goroutine ids, states and innermost
+// library frames, (2) at least one of them is blocked inside a library function, and (3) none is sleeping, running, runnable
+// or in a system call. In that situation no goroutine of the workload can ever run again (the Go runtime's own detector stays
+// silent only because this monitor's timer exists).
+func DeadlockMonitor(report func(site, dump string)) {
+	blocked := map[string]bool{"chan send": true, "chan receive": true, "select": true, "semacquire": true, "sync.Mutex.Lock": true,
+		"sync.RWMutex.Lock": true, "sync.RWMutex.RLock": true, "sync.Cond.Wait": true, "sync.WaitGroup.Wait": true, "chan send (nil chan)": true, "chan receive (nil chan)": true, "select (no cases)": true}
+	last, same := "", 0
+	buf := make([]byte, 8<<20)
+	for {
+		time.Sleep(5 * time.Second)
+		n := runtime.Stack(buf, true)
+		var sig []string
+		quiescent, site := true, ""
+		for _, g := range strings.Split(string(buf[:n]), "\n\n") {
+			m := goHeader.FindStringSubmatch(g)
+			if m == nil || strings.Contains(g, "DeadlockMonitor") {
+				continue
+			}
+			if !strings.Contains(g, "verifharness/") && !strings.Contains(g, "github.com/privacybydesign/gabi") {
+				continue // runtime-internal goroutines
+			}
+			if !blocked[m[2]] {
+				quiescent = false
+				break
+			}
+			lib := ""
+			for _, line := range strings.Split(g, "\n") {
+				if strings.HasPrefix(line, "github.com/privacybydesign/gabi") {
+					lib = line
+					if k := strings.LastIndex(lib, "("); k > 0 {
+						lib = lib[:k]
+					}
+					break
+				}
+				if strings.HasPrefix(line, "verifharness/") {
+					break // blocked in the harness' own code (waiting for the workers)
+				}
+			}
+			if lib != "" && site == "" {
+				site = strings.TrimPrefix(lib, "github.com/privacybydesign/")
+			}
+			sig = append(sig, m[1]+":"+m[2]+":"+lib)
+		}
+		cur := strings.Join(sig, "|")
+		if quiescent && site != "" && cur == last {
+			same++
+		} else {
+			same = 0
+		}
+		last = cur
+		if !quiescent || site == "" {
+			last = ""
+		}
+		if same >= 2 {
+			d := string(buf[:n])
+			if len(d) > 6000 {
+				d = d[:6000]
+			}
+			report(site, d)
+			return
+		}
+	}
+}
